@@ -223,4 +223,19 @@ def stop (cfg : FuncCfg) (f : Func) (log : List FEv) : List FEv × Option String
     | (log', .keyError k) => (log', some k)
     | (log', _) => (log' ++ [.superStop], none)
 
+/-! ### `InExecutor` -/
+
+/-- what `InExecutor.__call__` does, in order -/
+inductive XEv where
+  | enter                                   -- a fresh executor (pool) is entered
+  | run (args : List Val) (kwargs : Data)   -- the function runs in the pool with these arguments
+  | exit                                    -- the pool is shut down (`with`): on every outcome
+  deriving DecidableEq, Repr
+
+/-- `InExecutor(func)(*args, **kwargs)`: the blocking function is executed in a pool with exactly the given
+    positional and keyword arguments; its result is returned, its exception propagates; the pool is left
+    in both cases -/
+def inExecutorCall (f : Func) (args : List Val) (kwargs : Data) : List XEv × Except Nat Val :=
+  ([.enter, .run args kwargs, .exit], f args kwargs)
+
 end Edzed.OutputBlocks
